@@ -30,6 +30,17 @@ func init() {
 		"verifLen":    intrLen,
 		"verifAssume": intrAssume,
 		"verifAssert": intrAssert,
+		// verifAssertGhost: an obligation whose condition reads ghost state written by harness
+		// contracts. Checked like verifAssert; a counterexample cannot be confirmed by the native
+		// twin (it runs the real functions, the ghost state stays empty) and is inconclusive.
+		"verifAssertGhost": func(in *Interp, fr *frame, fn *ssa.Function, a []Value) Value {
+			id := in.constStr(a[0], "verifAssertGhost id")
+			if p, ok := a[1].(Poison); ok {
+				panic(&abort{abNotEncodable, "verifAssertGhost(" + id + ") on a value that could not be encoded: " + p.Why})
+			}
+			in.Ex.AssertKind(id, a[1].(*Term), true)
+			return nil
+		},
 		"verifReach": func(in *Interp, fr *frame, fn *ssa.Function, a []Value) Value {
 			in.Ex.Reach(in.constStr(a[0], "verifReach id"))
 			return nil
